@@ -207,6 +207,7 @@ type Exec struct {
 	prop       string
 	syncMaps   map[string]*MapV
 	stubs      map[string]Value
+	stubsPre   map[string]Value
 	ptrInts    map[string]*Term
 	facts      map[string]*Term
 	factOrder  []string
@@ -338,6 +339,7 @@ func (e *Exec) resetPath(prefix []Decision) {
 	e.lastPanic = nil
 	e.syncMaps = map[string]*MapV{}
 	e.stubs = map[string]Value{}
+	e.stubsPre = map[string]Value{}
 	e.ptrInts = map[string]*Term{}
 	e.facts = map[string]*Term{}
 	e.factOrder = nil
